@@ -899,7 +899,7 @@ Proof.
   destruct (exec_actions InConstruct s2 (body p 0)) as [s3 failed]. cbn [fst] in *.
   change (clock s2) with (r_start r) in H. destruct H as [new [E F]]. rewrite O2 in E.
   exists new. split; auto.
-  destruct failed; cbn [fst]; destruct (r_warm r <? _); cbn; exact E.
+  destruct failed; cbn [fst]; [cbn; exact E|]. destruct (r_warm r <? _); cbn; exact E.
 Qed.
 
 (* ---------------------------------------------------------------------- *)
@@ -1050,26 +1050,83 @@ Definition is_warm_ev (e : ev) : bool := match ev_h e with HWarm => true | HUser
 Definition warm_event (p : program) (s : sim) (r : repl) : ev :=
   mkEv (r_warm r) 10 (nid (fst (do_init p s r)) - 1) HWarm 0.
 
-Lemma do_init_warm_event p s r :
-  running s = false -> flag (fst (do_init p s r)) = false ->
+(* an initialize aborted by a raising construct_model: nothing was executed, the simulator is not
+   initialised -- and stays so under every command but initialize, which all refuse or do nothing *)
+Lemma do_init_aborted p s r :
+  snd (do_init p s r) = ResRaised ->
   let s1 := fst (do_init p s r) in
-  In (warm_event p s r) (pend s1) /\ ev_id (warm_event p s r) < nid s1 /\ trace s1 = trace s.
+  rs s1 = RNotInit /\ ps s1 = PNotInit /\ trace s1 = trace s.
 Proof.
-  intros R Fl. cbv zeta. unfold warm_event. revert Fl. unfold do_init. rewrite R.
+  cbv zeta. unfold do_init. destruct (running s); [discriminate|].
   set (s0 := set_pend [] s).
   set (s1 := match worker s0 with WNone => s0 | _ => do_cleanup s0 end).
   set (s2 := set_created [] (set_clock (r_start r) (set_rep (Some r) (set_worker WAlive s1)))).
   assert (T2 : trace s2 = trace s) by (unfold s2, s1, s0; destruct (worker (set_pend [] s)); reflexivity).
   pose proof (fr_trace _ _ (hs_frame _ _ (exec_actions_hstep InConstruct (body p 0) s2))) as T3.
   destruct (exec_actions InConstruct s2 (body p 0)) as [s3 failed]. cbn [fst] in *.
-  set (s4 := if failed then raise_flag s3 else s3).
-  assert (T4 : trace s4 = trace s) by (unfold s4; destruct failed; cbn; congruence).
+  destruct failed; [|cbn [snd]; discriminate]. intros _. cbn. repeat split. congruence.
+Qed.
+
+Lemma do_init_ok_or_raised p s r :
+  running s = false -> snd (do_init p s r) = ResOk \/ snd (do_init p s r) = ResRaised.
+Proof.
+  intros R. unfold do_init. rewrite R.
+  match goal with |- context [exec_actions InConstruct ?X ?B] => destruct (exec_actions InConstruct X B) as [s3 [|]] end;
+    cbn [snd]; auto.
+Qed.
+
+Lemma notinit_quiet p fuel s c :
+  rs s = RNotInit -> ps s = PNotInit -> negb (is_init c) = true ->
+  let s' := fst (do_cmd fuel p s c) in
+  rs s' = RNotInit /\ ps s' = PNotInit /\ trace s' = trace s /\ obs s' = obs s.
+Proof.
+  intros R P Hc. cbv zeta.
+  assert (S1 : start_checks s = false) by (unfold start_checks; rewrite R; rewrite !andb_false_r; reflexivity).
+  assert (S2 : step_checks s = false) by (unfold step_checks; rewrite R; rewrite !andb_false_r; reflexivity).
+  assert (Rn : running s = false) by (unfold running; rewrite R; reflexivity).
+  destruct c; try discriminate; cbn [do_cmd fst]; auto.
+  - destruct (rep s); auto. unfold do_start. rewrite S1. auto.
+  - unfold do_step. rewrite S2. auto.
+  - rewrite Rn. auto.
+  - unfold do_start. rewrite S1. auto.
+  - unfold do_start. rewrite S1. auto.
+  - unfold do_end_repl. rewrite P. auto.
+Qed.
+
+Lemma notinit_run_quiet p fuel cs : forall s,
+  rs s = RNotInit -> ps s = PNotInit -> forallb (fun c => negb (is_init c)) cs = true ->
+  let s' := fst (run_cmds fuel p s cs) in
+  trace s' = trace s /\ obs s' = obs s /\ ps s' = PNotInit.
+Proof.
+  induction cs as [|c r IH]; intros s R P Hc; cbn [run_cmds fst]; auto.
+  cbn [forallb] in Hc. apply andb_true_iff in Hc. destruct Hc as [Hc Hr].
+  destruct (notinit_quiet p fuel s c R P Hc) as (R1 & P1 & T1 & O1).
+  destruct (do_cmd fuel p s c) as [s1 res]. cbn [fst] in *.
+  specialize (IH s1 R1 P1 Hr). cbv zeta in IH.
+  destruct (run_cmds fuel p s1 r) as [s2 sn]. cbn [fst] in *.
+  destruct IH as (A & B & C). repeat split; congruence.
+Qed.
+
+Lemma do_init_warm_event p s r :
+  running s = false -> snd (do_init p s r) = ResOk -> flag (fst (do_init p s r)) = false ->
+  let s1 := fst (do_init p s r) in
+  In (warm_event p s r) (pend s1) /\ ev_id (warm_event p s r) < nid s1 /\ trace s1 = trace s.
+Proof.
+  intros R Ok Fl. cbv zeta. unfold warm_event. revert Ok Fl. unfold do_init. rewrite R.
+  set (s0 := set_pend [] s).
+  set (s1 := match worker s0 with WNone => s0 | _ => do_cleanup s0 end).
+  set (s2 := set_created [] (set_clock (r_start r) (set_rep (Some r) (set_worker WAlive s1)))).
+  assert (T2 : trace s2 = trace s) by (unfold s2, s1, s0; destruct (worker (set_pend [] s)); reflexivity).
+  pose proof (fr_trace _ _ (hs_frame _ _ (exec_actions_hstep InConstruct (body p 0) s2))) as T3.
+  destruct (exec_actions InConstruct s2 (body p 0)) as [s3 failed]. cbn [fst] in *.
+  destruct failed; [cbn [snd]; discriminate|]. intros _.
+  assert (T4 : trace s3 = trace s) by congruence.
   cbn [fst].
-  destruct (r_warm r <? clock (set_ps PInit (set_rs RInit s4))) eqn:Lt.
+  destruct (r_warm r <? clock (set_ps PInit (set_rs RInit s3))) eqn:Lt.
   - (* the model flags a warm-up time before the start: excluded *)
     cbn [fst flag raise_flag set_flag]. discriminate.
   - intros _. cbn [fst pend nid trace set_nid set_pend set_ps set_rs].
-    replace (nid s4 + 1 - 1) with (nid s4) by lia.
+    replace (nid s3 + 1 - 1) with (nid s3) by lia.
     split; [apply ins_In; left; reflexivity|]. split; [cbn; lia|exact T4].
 Qed.
 
@@ -1121,9 +1178,14 @@ Theorem after_warmup_iff_time p fuel s0 r cs :
         (In (e, ce) l2 <-> r_warm r <= ev_time e).
 Proof.
   intros HI R. cbv zeta. intros Fl Hc.
+  destruct (do_init_ok_or_raised p s0 r R) as [Ok|Ra].
+  2:{ (* construct_model raised: initialize was aborted, nothing runs afterwards *)
+      destruct (do_init_aborted p s0 r Ra) as (Rs & Ps & Tr). cbv zeta in Rs, Ps, Tr.
+      destruct (notinit_run_quiet p fuel cs _ Rs Ps Hc) as (T' & _ & _). cbv zeta in T'.
+      exists []. split; [cbn [app]; congruence|]. intros l2 c l1 E. destruct l2; discriminate. }
   set (s1 := fst (do_init p s0 r)) in *.
   set (W := warm_event p s0 r).
-  destruct (do_init_warm_event p s0 r R Fl) as (Wp & Wid & Tr1). fold s1 W in Wp, Wid, Tr1.
+  destruct (do_init_warm_event p s0 r R Ok Fl) as (Wp & Wid & Tr1). fold s1 W in Wp, Wid, Tr1.
   assert (I1 : Inv s1) by (apply do_init_inv; auto).
   assert (O1 : Older W (trace s0) s1).
   { constructor; auto. exists []. rewrite Tr1. split; [reflexivity|]. split.
@@ -1350,9 +1412,15 @@ Theorem observations_split_at_warmup p fuel s0 r cs :
          /\ (forall e ce, In (e, ce) l1 -> ev_prio e < 10 -> ev_time e < r_warm r).
 Proof.
   intros HI R. cbv zeta. intros Fl Hc.
+  destruct (do_init_ok_or_raised p s0 r R) as [Ok|Ra].
+  2:{ (* construct_model raised: initialize was aborted, nothing runs afterwards *)
+      destruct (do_init_aborted p s0 r Ra) as (Rs & Ps & Tr). cbv zeta in Rs, Ps, Tr.
+      destruct (notinit_run_quiet p fuel cs _ Rs Ps Hc) as (T' & O' & _). cbv zeta in T', O'.
+      exists []. split; [cbn [app]; congruence|]. split; [cbn [flat_map app]; rewrite O'; reflexivity|].
+      intros l2 c l1 E. destruct l2; discriminate. }
   destruct (after_warmup_iff_time p fuel s0 r cs HI R Fl Hc) as [l [E H]].
   set (s1 := fst (do_init p s0 r)) in *.
-  destruct (do_init_warm_event p s0 r R Fl) as (_ & _ & Tr1). fold s1 in Tr1.
+  destruct (do_init_warm_event p s0 r R Ok Fl) as (_ & _ & Tr1). fold s1 in Tr1.
   assert (C1 : Chron p (trace s0) (nonend (obs s1)) s1).
   { exists []. rewrite Tr1. split; reflexivity. }
   destruct (run_cmds_chron p (trace s0) (nonend (obs s1)) fuel cs s1 Hc C1) as [l' [E' B']].
@@ -1400,7 +1468,7 @@ Proof.
     set (s2 := set_created [] _).
     pose proof (handler_clock_const InConstruct (body p 0) s2) as C.
     destruct (exec_actions InConstruct s2 (body p 0)) as [s3 failed]. cbn [fst] in *.
-    destruct failed; cbn [fst]; destruct (r_warm r <? _); cbn; exact C. }
+    destruct failed; cbn [fst]; [cbn; exact C|]. destruct (r_warm r <? _); cbn; exact C. }
   split; [exact C1|].
   destruct (do_init_obs p s0 r R) as [n1 [E1 F1]]. fold s1 in E1.
   destruct (run_cmds_obsext p fuel cs s1 I1 Hc) as [L [n2 [E2 [F2 S2]]]].
@@ -1469,6 +1537,7 @@ Proof.
   intros H. destruct c; cbn [do_cmd fst]; auto.
   - unfold do_init. destruct (running s); auto.
     destruct (exec_actions _ _ _) as [s3 failed]. cbn [fst].
+    destruct failed; [unfold EndHead; cbn; discriminate|].
     destruct (r_warm r <? _); unfold EndHead; cbn; discriminate.
   - destruct (rep s); auto. apply do_start_endhead; auto.
   - apply do_step_endhead; auto.
